@@ -235,7 +235,7 @@ void *array::set(size_t len, const void *base)
 	if ((d = _buf.instance())) {
 		size_t used;
 		/* incompatible target buffer */
-		if (d->content_traits() || d->shared()) {
+		if (d->content_traits() || d->shared() || d->immutable()) {
 			d = 0;
 		}
 		else if (len <= (used = d->length())) {
